@@ -1,0 +1,7 @@
+//go:build verif
+// +build verif
+
+package matcher
+
+// VerifRegexToPrefix exposes regexToPrefix to the verification harness.
+func VerifRegexToPrefix(regex string) []byte { return regexToPrefix(regex) }
